@@ -911,7 +911,7 @@ func vrGcmBytes(c *vrCase, n int) []byte {
 }
 
 // vrGcmInputs enumerates the GCM test inputs: every plaintext length 0..300, every
-// aad length, every nonce size, every tag size, and random ones up to 1100 bytes.
+// aad length, every nonce size, every tag size, random ones up to 1100 bytes, and a few long ones (up to 64 KiB).
 func vrGcmInputs(c *vrCase, f func(g vrGcmIn)) {
 	keys := vrKeys(c, 6)
 	mk := func(ptLen, aadLen, nonceSize, tagSize int) {
@@ -952,6 +952,12 @@ func vrGcmInputs(c *vrCase, f func(g vrGcmIn)) {
 			mk(16*blocks+d, 13, 12, 16)
 		}
 	}
+	// a few long messages and long aad (many iterations of the 16-block loop, counter bytes carrying)
+	for _, ptLen := range []int{2048, 4095, 4096, 4097, 8192 + 13, 65536 + 255} {
+		mk(ptLen, 13, 12, 16)
+	}
+	mk(100, 4097, 12, 16)
+	mk(4096+5, 2048, 12, 13)
 	for i := 0; i < c.n; i++ {
 		mk(c.rng.Intn(1101), []int{0, pick(vrAadLens), c.rng.Intn(600)}[c.rng.Intn(3)], []int{12, 12, pick(vrNonceSizes)}[c.rng.Intn(3)], []int{16, 16, 12 + c.rng.Intn(5)}[c.rng.Intn(3)])
 	}
